@@ -8,7 +8,7 @@ import time
 sys.path.insert(0, os.path.join(os.path.dirname(os.path.abspath(__file__)), "..", "lib"))
 IC = CC = None
 
-LEAN_MODULES = ["KmipModel.Props.C02", "KmipModel.Props.C02Engine"]
+LEAN_MODULES = ["KmipModel.Props.C02", "KmipModel.Props.C02Engine", "KmipModel.Props.C02Encode", "KmipModel.Props.ServerBytes"]
 RULE = ("(a) every primitive class on the C01 boundary pools: bytes written by /repo compared with the Lean M1 encoder "
         "(written from the specification) of the same value; (b) EVERY byte string /repo's write() produced in this run "
         "— all structure instances of the C01 generation (every Struct class x 6 versions x derived instances), the "
@@ -20,7 +20,10 @@ RULE = ("(a) every primitive class on the C01 boundary pools: bytes written by /
         "session scenarios: generated requests of all 21 dispatched operations under all versions (successes and "
         "every error class the engine produces), multi-item batches, unsupported versions, malformed / truncated / "
         "garbage requests, missing or unsuitable client certificates, maximum-response-size replacement, chunked "
-        "delivery.  distinct_nontrivial = distinct byte strings parsed + distinct (scenario, operation, status, reason).")
+        "delivery; (d) response ENCODING: every real engine response of generated histories (all 21 operations x 6 "
+        "versions x outcomes, batches, rejected requests) written as the session writes it and compared BYTE FOR BYTE "
+        "with the Lean model's responseBytes of the same results (M15, Drivers/Encode.lean), the model's range, "
+        "validity, envelope and version-gating predicates evaluated on each.  distinct_nontrivial = distinct byte strings parsed + distinct (scenario, operation, status, reason).")
 ASSUMPTIONS = [
     "requests refused before or while parsing (certificate failures, undecodable bytes, unsupported protocol "
     "version) cannot be answered under the request's version: for those the version clause is not applied",
@@ -373,8 +376,14 @@ def run(ctx):
     cov["envelopes_checked"] = len(sess)
     cov["envelopes_ok"] = env_ok
     cov["response_classes_seen"] = sorted("%s/op=%s/status=%s/reason=%s" % x for x in obs)[:200]
+    # -- M15: the response ENCODER model: bytes of every real engine response == Lean responseBytes of the same results
+    import encode_check
+    t2 = time.time()
+    enc = encode_check.run(ctx, random.Random("encode-%s" % ctx.seed))
+    cov["encode"] = enc
+    cov["encode_wall_s"] = round(time.time() - t2, 1)
     ctx.coverage.update(cov)
-    ctx.coverage["evaluations"] = len(lines) + cov["prim_compared_with_spec_encoder"]
+    ctx.coverage["evaluations"] = len(lines) + cov["prim_compared_with_spec_encoder"] + (enc.get("responses_compared") or enc.get("compared") or 0)
     ctx.coverage["distinct_nontrivial"] = len(distinct) + len(obs)
     ctx.coverage["rule"] = RULE
     ctx.coverage["samples"] = [{"scenario": s[0], "ops": s[1], "reqver": s[2], "response": s[3].hex()[:200]}
@@ -499,6 +508,9 @@ def replay(ctx, rep):
         m = json.loads(out)
         print("/repo: %s\nspec : %s" % (res["enc"].hex(), m["spec"]))
         return m["spec"] == res["enc"].hex()
+    if r.get("kind") == "encode":
+        import encode_check
+        return encode_check.replay_case(ctx, rep)
     if r.get("kind") == "bytes":
         # the bytes were produced by /repo in the recorded run; re-judge them with the strict parser
         out = ctx.run_model("Codec", [json.dumps({"op": "parse", "hex": r["hex"]})])[0]
